@@ -203,6 +203,15 @@ func (c *Ctx) execCall(s *State, in ssa.Instruction, cc *ssa.CallCommon, res ssa
 			if res != nil {
 				rp.s.top().vals[res] = rv
 			}
+			if isEvent {
+				// the event recorded before inlining gets this path's result
+				for k := len(rp.s.trace) - 1; k >= 0; k-- {
+					if rp.s.trace[k].Seq == ev.Seq && rp.s.trace[k].Name == ev.Name {
+						rp.s.trace[k].Res = rv
+						break
+					}
+				}
+			}
 			_ = i
 			if rp.s == s {
 				continue
